@@ -115,6 +115,14 @@ def run(ctx):
         sp = cp.calls("pgcat::pool::ServerPool::new")
         okm = bool(sp) and any(o.kind == "call" and o.call.name.endswith("Default>::default") for o in origins(cp, sp[0].args[3], taint=True))
         r3.check(okm, "private-cancel-map", "the mirror's ServerPool gets ClientServerMap::default() (private)", "the mirror shares a cancel map")
+        # what reaches a mirror is copies of requests - nothing the mirror's own connection manager thinks up: ServerPool::connect runs the plugins it is given
+        # (the prewarmer's queries) on every connection it opens, at every reconnect of the mirror; the mirror's manager is given none (round 11)
+        if sp:
+            po = origins(cp, sp[0].args[5], taint=True)
+            none_only = bool(po) and all(o.kind == "agg" and str(o.extra.get("variant", "")) == "None" or (o.kind == "const") for o in origins(cp, sp[0].args[5])) and not any(o.kind in ("call", "place", "param", "static") for o in po)
+            r3.check(none_only, "mirror-manager-originates-nothing", "the mirror's ServerPool is built with plugins = None: its connections send what the task forwards and nothing else",
+                     "the mirror's ServerPool is given a plugins section: ServerPool::connect runs the prewarmer's queries on every connection the mirror task opens - the mirror receives statements that were never sent to the mirrored "
+                     "server (again at every reconnect), on top of the copies of the primary's own prewarm queries", sp[0].where())
     # what the mirror's pool and the clients' pools have in common is the connection manager (ServerPool): nothing in it - connect / is_valid, Server::startup -
     # waits for a process-wide resource (a permit of a static semaphore, a static async lock): a mirror that accepts and then says nothing holds its connect
     # attempt - and whatever that attempt holds - for connect_timeout, again and again; clients' attempts queue behind it (round 10)
